@@ -169,6 +169,15 @@ prop("C18",
                            "sa/refdata/nist_its90_inverse_pinned.json was transcribed from the pinned tree (no independent offline source); tools/vendor_nist.py printed a one-off "
                            "inverse(forward(T)) consistency report at vendoring time"])
 
+prop("C11",
+     ["BL1", "BL2", "BL3", "TD1", "SR1", "TR1", "DL1", "SB1"],
+     "The agreements the DAQmx index arithmetic rests on: record sizes vs formats, scaler type-code table, byte order threaded through "
+     "every DAQmx parse site and decoder, sibling interface of the scaler classes and agreement of the three header sets, (length, width) "
+     "role flow from get_buffer_dimensions into reads and seeks, scaler values = byte columns [offset, offset+size) of their own buffer, "
+     "digital-line bit addressing, truncation loops stop at the first incomplete buffer.",
+     ["the decoded values", "truncated-final-chunk row counts", "equality of lazy windows with eager slices"],
+     COMMON_ASSUMPTIONS)
+
 # ---------------------------------------------------------------------------
 # MANIFEST texts
 LEVEL_TEXT = {
@@ -207,7 +216,9 @@ LEVEL_TEXT["C07"] = "Partial claim: round-trip equality is not a static target; 
 LEVEL_TEXT["C12"] = "Partial claim: the exactness clause is decided by interval analysis of the encoder (float64 cannot hold integers beyond 2**53); sibling and constant checks; numerical clauses are not decided."
 LEVEL_TEXT["C16"] = "Partial claim: the taint-style discipline around the path grammar is decided (who produces paths, who parses them, alphabet agreement, key spaces); inverse-ness of the scanner for all strings is not."
 LEVEL_TEXT["C18"] = "Partial claim: tables are a legitimate object of static checking (constant extraction and comparison against the standard's tables); the evaluator's shape is decided; numerical clauses are not."
+LEVEL_TEXT["C11"] = "Partial claim: decoding is index arithmetic over run-time widths and offsets; decided are the layout, dispatch, role-flow and loop-shape agreements that arithmetic rests on."
 TECHNIQUE = {
+    "C11": "static analysis: size/format agreement, endianness dataflow, registry sibling-interface check, tuple-role flow, def-use of decoded columns",
     "C18": "static analysis: constant-table extraction and comparison with vendored NIST tables, partition/totality check, unit-exponent flow",
     "C16": "static analysis: taint-style producer/consumer funnel, expression-shape check of the encoder, alphabet agreement, key-space typing of map accesses",
     "C07": "static analysis: decision-table analysis over threshold-induced cells, interval/numeric-kind analysis, table and layout agreement",
